@@ -25,7 +25,7 @@ R_both == {[hr |-> FALSE, r |-> ""], [hr |-> TRUE, r |-> "use other"]}
 R_all == R_both \cup {[hr |-> TRUE, r |-> ""], [hr |-> TRUE, r |-> "say \"no\""]}
 D_one == {"plain text"}
 D_all == {"plain text", "two\nlines", "with \"quotes\""}
-Dir_small == {[name |-> "tag", locs |-> <<"FIELD_DEFINITION", "OBJECT", "SCALAR">>, rep |-> TRUE],
+Dir_small == {[name |-> "tag", locs |-> <<"FIELD_DEFINITION", "OBJECT", "SCALAR", "SCHEMA">>, rep |-> TRUE],
               [name |-> "auth", locs |-> <<"QUERY", "FIELD">>, rep |-> FALSE]}
 Dir_all == Dir_small \cup {[name |-> "everywhere", rep |-> FALSE,
                             locs |-> <<"QUERY", "MUTATION", "SUBSCRIPTION", "FIELD", "FRAGMENT_DEFINITION", "FRAGMENT_SPREAD",
@@ -54,6 +54,10 @@ E_Slots == {[name |-> "Color", kind |-> "ENUM"], [name |-> "In", kind |-> "INPUT
 E_Features == {"fields", "inputs", "enums", "deprecate"}
 F_Features == {"args", "deprecate"}   \* F: two arguments of one field, both deprecated
 W_none == {<<>>}
+\* ---- G: type extensions of every kind and `extend schema`
+G_Slots == {[name |-> "Obj", kind |-> "OBJECT"], [name |-> "Node", kind |-> "INTERFACE"], [name |-> "U", kind |-> "UNION"],
+            [name |-> "Color", kind |-> "ENUM"], [name |-> "In", kind |-> "INPUT_OBJECT"], [name |-> "Date", kind |-> "SCALAR"]}
+G_Features == {"extensions", "fields", "unions", "enums", "inputs", "scalars", "roots"}
 \* ---- simulation: everything
 Sim_Slots == {[name |-> "Obj", kind |-> "OBJECT"], [name |-> "Other", kind |-> "OBJECT"], [name |-> "Mutation", kind |-> "OBJECT"],
               [name |-> "Query", kind |-> "OBJECT"],
@@ -63,7 +67,7 @@ Sim_Slots == {[name |-> "Obj", kind |-> "OBJECT"], [name |-> "Other", kind |-> "
               [name |-> "Color", kind |-> "ENUM"], [name |-> "Unit", kind |-> "ENUM"],
               [name |-> "In", kind |-> "INPUT_OBJECT"], [name |-> "Filter", kind |-> "INPUT_OBJECT"],
               [name |-> "Date", kind |-> "SCALAR"], [name |-> "JSON", kind |-> "SCALAR"]}
-Sim_Features == {"fields", "implements", "unions", "args", "inputs", "defaults", "enums", "deprecate",
+Sim_Features == {"extensions", "fields", "implements", "unions", "args", "inputs", "defaults", "enums", "deprecate",
                  "directives", "tags", "roots", "describe", "scalars"}
 
 \* ---- emission: one test case per state
